@@ -25,6 +25,8 @@ func init() {
 
 func runC13(c *Ctx) {
 	wholeSliceToStream(c, c.P, "R4", "transports/obfs3:(*obfs3Conn).Write")
+	wholeSliceFromStream(c, c.P, "R4", "transports/obfs3:(*obfs3Conn).Read")
+	noBackgroundConnWrites(c, c.P, newConnIO(c.P), "R4", "transports/obfs3")
 	if !importing {
 		importObls(c, "C10", runC10, "X10", func(k string) bool { return containsAny(k, "transports/obfs3", "common/uniformdh") })
 		importObls(c, "C12", runC12, "X12", func(k string) bool { return containsAny(k, "common/csrand") })
